@@ -33,6 +33,7 @@ type World struct {
 	condMon  map[string]*MonitorSpec // "pkg::Type.condfield"
 	constErr map[string]bool         // "G:pkg.name" of error variables assigned only by their package initialiser
 	specErr  []string
+	noAssume     map[string]bool // clause keys (pkg::func :: clause) of open findings: checked, never assumed
 	knownFuncs   map[string][]string // package path -> functions that existed on the baseline tree (optional)
 	knownSet     map[string]bool
 	baseLoopSigs map[string][]string // pkg::func -> loop signatures in baseline ordinal order (optional)
